@@ -50,6 +50,8 @@ def write(pid, tier, seed, ob_rows, finding_rows, violations, harness_errors, no
                 "per discharged query. evaluations counts all paths started, including aborted "
                 "ones.",
         'samples': samples[:40],
+        'traces_validated_against_impl': sum(int(r.get('validated_on_real_code') or 0)
+                                             for r in ob_rows),
         'obligations': len(ob_rows),
         'discharged': discharged,
         'exhaustive': bool(ob_rows) and discharged == len(ob_rows),
